@@ -352,6 +352,7 @@ func ruleGem(p *Prog, r *Report) {
 		}
 		preSite, forced, conditional := "", "", ""
 		perHyphen := false
+		skipped := ""
 		for _, fn := range p.RepoReachable(e.NewVer) {
 			for _, b := range fn.Blocks {
 				for _, ins := range b.Instrs {
@@ -383,6 +384,12 @@ func ruleGem(p *Prog, r *Report) {
 													if g := sc.Call.StaticCallee(); g != nil && extName(g) == "strings.Split" {
 														if sep, ok := constString(sc.Call.Args[1]); ok && sep == "-" {
 															perHyphen = true
+															// and in every iteration: the insertion dominates the way back to the loop head
+															for _, back := range l.backs {
+																if !b.Dominates(back) {
+																	skipped = p.Pos(c.Pos())
+																}
+															}
 															return false
 														}
 													}
@@ -428,7 +435,9 @@ func ruleGem(p *Prog, r *Report) {
 		// every hyphen: Gem::Version replaces each '-' by '.pre.', and RubyGems' pattern allows several
 		if mk != nil && preSite != "" {
 			key := "gem: every hyphen introduces the segment \"pre\""
-			if perHyphen {
+			if perHyphen && skipped != "" {
+				r.Bad("R-GEM-PRE", key, skipped, "inside the loop over the hyphen-separated groups there is a path through an iteration that does not append the segment \"pre\": the insertion depends on the content of the group, where Gem::Version replaces every '-' by '.pre.' (1.0.0-pre is 1.0.0.pre.pre, below 1.0.0.pre)")
+			} else if perHyphen {
 				r.Ok("R-GEM-PRE", key, preSite, "the segment is appended once per group of strings.Split(hyphen part, \"-\")")
 			} else {
 				r.Bad("R-GEM-PRE", key, preSite, "the segment \"pre\" is appended once, not once per '-': after the first hyphen a further '-' stays inside a segment (1.0-a-b gets the segment \"a-b\"), where Gem::Version reads 1.0.pre.a.pre.b; 1.0-a-b then sorts above 1.0-a instead of below")
